@@ -17,6 +17,7 @@ def gas(name, comp):
 
 NETS = {'H2/O2/H2O': [('H2', {'H': 2}), ('O2', {'O': 2}), ('H2O', {'H': 2, 'O': 1})],
         'one-element': [('O2', {'O': 2}), ('O3', {'O': 3})],
+        'dependent-balances(CnH2n+N2)': [('C2H4', {'C': 2, 'H': 4}), ('C3H6', {'C': 3, 'H': 6}), ('N2', {'N': 2})],
         'CH4-combustion': [('CH4', {'C': 1, 'H': 4}), ('O2', {'O': 2}), ('CO2', {'C': 1, 'O': 2}), ('H2O', {'H': 2, 'O': 1})]}
 
 
@@ -65,6 +66,18 @@ for net, sp in NETS.items():
                                               'for i in range(%d))' % ([n for n, c in sp], ns)),
                       ('pressure-in-bar', 'ext_call("minimize")["args"][1] == P * 1.01325')],
              warns='not ext_call("minimize")["result"].success', cross_check=False)
+
+# a solver object that has been used before (any earlier T, P and cached energies): the next call uses the new conditions
+for net, sp in NETS.items():
+    ns = len(sp)
+    used = New(EQ, model=ListOf([gas(n, c) for n, c in sp]), network=DictOf({n: Real(0., 2.) for n, c in sp}),
+               _post=dict(T=Real(300., 2500.), P=Real(0.01, 100.), gibbs=RealList(ns, -50., 50.)))
+    contract(EQ + '.get_net_comp', P, label=net + ',object-used-before', args=dict(self=used, T=Real(300., 2500.), P=Real(0.01, 100.)),
+             requires=['T > 0', 'P > 0', 'all(v >= 0 for v in self.network.values())'],
+             ensures=[('gibbs-energies-at-the-new-T', 'all(ext_call("minimize")["args"][0][i] == self.model[%r[i]].get_GoRT(T=T) '
+                                                      'for i in range(%d))' % ([n for n, c in sp], ns)),
+                      ('pressure-in-bar', 'ext_call("minimize")["args"][1] == P * 1.01325')],
+             cross_check=False)
 
 # ---- objective = mixture Gibbs energy, Jacobian = its gradient ------------------------------------
 for n in (2, 3, 4):
